@@ -394,6 +394,7 @@ func init() {
 			// groups (the only place where an upper-case letter is syntax) with and without the i flag
 			for _, m := range []string{"##!+ s\n(?i)ab|c.\n", "##!+ s\n##!^ (?i)\nfoo\nbar\n", "##!+ s\n(?i)foo\n", "##!+ i\n(?s)a.b\n", "##!+ s\n(?i:ab|c.)\n", "(?i)ab|c\n", "##!+ s\n(?is)x.y\n", "##!+ i\n##!^ (?s)\nfoo.\nbar\n", "##!+ s\n##!$ (?i:end)\n(?i)x\n",
 				"(item\\(?s) .+\n", "##!+ i\n##!^ ^\n##!$ $\n(arg\\(?s)=.*\nx\n", "(a\\(?i)|b).\n", "x|(y\\(?s)z).\n", "(q\\(?i:r)).$\n", "\\.aspx(?i:handler).+\n", "\\.abcd(?s:.)x.\n", "\\.a(?s:.)y.\nz\n", "\\.ab(?s:.)x.(?i:k)\n",
+				"caf\\351\n", "(?i)[k-l]x\n", "(?i:[s])tart\n", "##!+ i\n[k]elvin\n[s]t\n", "##!^ \\351\nfoo\n", "a\\177b\n", "x\\200y\n", "##!$ \\303\\251\nfoo\nbar\n", "(?i)k+s\n", "\\0\n\\07x\n",
 				"##!+ i\n(?P<scheme>https?)://x\n", "##!+ is\n(?P<Name>a.b)|c\n", "(?P<n>x)y\n", "##!+ i\nfoo(?P<A>BAR)\n", "##!+ s\n(?P<dot>.)(?P<Rest>[A-Z]+)\n", "##!+ i\n##!^ (?P<Pre>p)\nfoo\nbar\n"} {
 				cs = append(cs, &c02Case{Main: m, Lane: "whole-expression-flag-groups-and-named-groups", Update: true})
 			}
